@@ -1766,3 +1766,34 @@ Proof.
     apply filter_In in Hin. destruct Hin as [_ Hne]. cbn [snd] in Hne.
     apply negb_true_iff in Hne. apply Nat.eqb_neq in Hne. congruence.
 Qed.
+
+(** ** the hand-over of a hot upgrade *)
+Lemma handover_inv : forall es h os, Inv es h os -> Inv [] (handover h) [].
+Proof.
+  intros es h os I. pose proof (inv_wf _ _ _ I) as W. constructor.
+  - constructor; cbn [handover tasks in_flight workers next_task next_rq].
+    + intros t [].
+    + constructor.
+    + constructor.
+    + intros r tid [].
+    + apply NoDup_map_fst_filter. apply (wf_workers _ W).
+    + intros t [].
+    + intros t [].
+  - intros t [].
+  - intros w r rq [].
+  - intros t [].
+Qed.
+
+Lemma handover_drops_pending_lemma : forall nw tm es0 h os0 t es,
+    run (init nw tm) es0 = (h, os0) -> In t (tasks h) ->
+    finals_of (t_rq t) (snd (run (handover h) es)) = [].
+Proof.
+  intros nw tm es0 h os0 t es Hr Hin. pose proof (reach_inv _ _ _ _ _ Hr) as I.
+  destruct (run (handover h) es) as [h' os] eqn:E. cbn [snd].
+  pose proof (run_budget _ _ _ _ (t_rq t) E) as Hb. cbn [handover tasks] in Hb.
+  pose proof (inv_rq _ _ _ I t Hin) as Hlt.
+  unfold fresh_ind in Hb. cbn [handover next_rq] in Hb.
+  destruct (Nat.ltb_spec (t_rq t) (next_rq h)); [|lia].
+  unfold count_rq in Hb at 2. cbn [filter length] in Hb.
+  destruct (finals_of (t_rq t) os); [reflexivity|cbn [length] in Hb; lia].
+Qed.
